@@ -255,6 +255,7 @@ package main
 //@   ensures [C10] online_not_raised: forall u types.Uid :: (u in t.perUser) && old(u in t.perUser) ==> t.perUser[u].online == old(t.perUser[u].online) || t.perUser[u].online == 0
 //@   ensures [C06] subscriber_stays: !unsub && old((uid in t.perUser) && !t.perUser[uid].isChan) ==> (uid in t.perUser)
 //@   ensures [C10] evicted_counts_no_sessions: (uid in t.perUser) ==> t.perUser[uid].online == 0
+//@   ensures [C03] unsubscribed_group_member_forgotten: unsub && t.cat == types.TopicCatGrp ==> !(uid in t.perUser)
 //@   ensures [C02] names_kept: forall u types.Uid :: (u in t.perUser) && old(u in t.perUser) ==> t.perUser[u].topicName == old(t.perUser[u].topicName)
 // (C15: "disconnected when a party's session leaves" - being evicted is leaving. Known finding: evictUser does not look
 // at the call in progress. The solver does not decide this clause - quantified context, it times out - and the replay
@@ -386,6 +387,8 @@ package main
 //@   ensures [C11] pending_creds: len(missing) > 0 ==> s.uid == old(s.uid) && s.authLvl == old(s.authLvl)
 //@   ensures [C11] nologin: (old(rec.Features) & auth.FeatureNoLogin) != 0 ==> s.uid == old(s.uid) && s.authLvl == old(s.authLvl)
 //@   ensures [C11] identity: s.uid != old(s.uid) || s.authLvl != old(s.authLvl) ==> s.uid == old(rec.Uid) && s.authLvl == old(rec.AuthLevel)
+// (the token handed out with a "validate your credentials" answer is not stamped as validated: presenting it must not skip the check)
+//@   assert at call GenSecret [C11] pending_token_not_validated: len(missing) > 0 ==> ($1.Features & auth.FeatureValidated) == (old(rec.Features) & auth.FeatureValidated)
 
 // ---------------------------------------------------------------------------------------------
 // C17: cluster placement and leader election (per-node obligations)
@@ -472,6 +475,8 @@ package main
 // a detour - self-ban and return, leave and resubscribe)
 //@   requires [C06] only_owner_wants_O: (asUid in t.perUser) && !t.perUser[asUid].deleted && hasO(t.perUser[asUid].modeWant) ==> t.owner == asUid
 // (channel readers excepted: their requested mode comes back from the store as it was written, within JRP)
+// (C06/C08: after a transfer the previous owner's cached modes have no O - what was written to the store for that user)
+//@   ensures [C06,C08] previous_owner_cached_without_O: err == nil && t.owner != old(t.owner) && (old(t.owner) in t.perUser) ==> !hasO(t.perUser[old(t.owner)].modeGiven) && !hasO(t.perUser[old(t.owner)].modeWant)
 // (C06: "ownership moves only when the current owner grants it": once ownership has moved, no offer made by the previous
 // owner is left standing - otherwise a third subscriber could later take ownership from an owner who never offered it.
 // Known finding: the transfer strips the previous owner only.)
@@ -536,6 +541,9 @@ package main
 
 // {del sub}: an administrator removes somebody else's subscription - never the owner's.
 //@ func (t *Topic) replyDelSub(sess *Session, asUid types.Uid, msg *ClientComMessage) (err error)
+// (C03: a removed member is gone from the topic's table whether or not any of the member's sessions was attached: a stale
+// entry would let the member re-attach, or root publish on the member's behalf, with the old W)
+//@   ensures [C03] removed_member_forgotten: err == nil && t.cat == types.TopicCatGrp ==> !(types.ParseUserId(old(msg.Del.User)) in t.perUser)
 //@   ensures [C13] answered: outTotal > old(outTotal)
 //@   requires t != nil && sess != nil && msg != nil && msg.Del != nil
 //@   modifies inferred
@@ -1017,8 +1025,12 @@ package main
 //@   requires [C14] t != nil && msg != nil && msg.sess != nil
 // (assumed of the senders: a client's own {leave} - init set - carries its body; Session.leave builds it that way)
 //@   requires [C14,assumed] client_leave_has_body: msg.init ==> msg.Leave != nil
+//@   requires [C15] inv_seq: rowMax[t.name] <= t.lastID
 //@   modifies *
 //@   ensures [C14] leave_mark_cleared: msg.init && msg.sess.inflightReqs != nil ==> doneCalls > old(doneCalls)
+// (C15: "disconnected when a party's session leaves" - however the session leaves: a {leave}, a lost connection or a stuck
+// queue all arrive here, the last two without a user id in the message)
+//@   ensures [C15] leaving_party_ends_call: old(t.currentCall != nil && msg.sess.multi == nil && msg.sess.proto != MULTIPLEX && (msg.sess.sid in t.currentCall.parties)) ==> called("terminateCallInProgress") == old(called("terminateCallInProgress")) + 1
 //@ func (t *Topic) registerSession(msg *ClientComMessage)
 //@   requires [C14] t != nil && msg != nil && msg.sess != nil
 //@   modifies *
@@ -1328,3 +1340,12 @@ package main
 //@   ensures [C05] bad_auth_text_rejected: (exists i int :: 0 <= i && i < len(acs.Auth) && bitOf(acs.Auth[i]) == 0 && !isN(acs.Auth[i])) ==> err != nil
 //@   ensures [C05] bad_anon_text_rejected: (exists i int :: 0 <= i && i < len(acs.Anon) && bitOf(acs.Anon[i]) == 0 && !isN(acs.Anon[i])) ==> err != nil
 //@   ensures [C05] failure_keeps_defaults_of_the_failed_part: err == nil || authMode == defAuth || anonMode == defAnon
+
+// C03 (round 7): every accepted change of an account's state - suspension and re-activation alike - is passed on to the hub,
+// which sets or clears the read-only flag of the user's loaded topics.
+//@ func changeUserState(s *Session, uid types.Uid, user *types.User, msg *ClientComMessage) (changed bool, err error)
+//@   requires [C03] s != nil && user != nil && msg != nil && msg.Acc != nil && globals.hub != nil
+//@   modifies inferred
+// (the eviction of the user's sessions that precedes a suspension has an unconstrained frame, so the clause names the
+// request itself: the last thing put on the hub's queue is a request made by this call, for this user and this state)
+//@   ensures [C03] hub_told_of_every_change: changed ==> last(globals.hub.userStatus) != nil && fresh(last(globals.hub.userStatus)) && last(globals.hub.userStatus).forUser == uid && last(globals.hub.userStatus).state == user.State
